@@ -475,7 +475,13 @@ func checkImportLoopPolarity(c *Ctx, rule string) {
 						// the key derived from: Child(acct, <branch const>) somewhere in the receiver's slice
 						for z := range backSlice(callRecv(y)).vals {
 							if cl, ok := z.(*ssa.Call); ok && callName(cl) == "Child" && cl != y && len(cl.Call.Args) == 2 {
-								if bv := branchOfValue(c, cl.Call.Args[1]); bv != "" {
+								bv := branchOfValue(c, cl.Call.Args[1])
+								if bv == "" {
+									// both branch keys derived in one loop over a literal list of branch numbers and
+									// collected by append: the key taken at position p is the child of the p-th number
+									bv = branchOfCollected(c, callRecv(y), cl)
+								}
+								if bv != "" {
 									markers++
 									if bv != want {
 										bad = append(bad, fmt.Sprintf("derives from the %s branch key at %s", bv, c.Pos(y.Pos())))
@@ -500,6 +506,77 @@ func checkImportLoopPolarity(c *Ctx, rule string) {
 	if found != 2 {
 		c.Bad(rule, "createManagerKeyScope:loops", c.Pos(cmks.Pos()), fmt.Sprintf("reason=anchor-missing: expected two re-derivation loops bounded by the external and internal counters, found %d", found))
 	}
+}
+
+// branchOfCollected: recv (the key an address is derived from) is element p of a slice filled by append in
+// a loop `for _, b := range [...]uint32{…}` in which child = acct.Child(b): the branch of the p-th literal
+// element. p is a constant or a branch constant used as an index. "" if the shape is different.
+func branchOfCollected(c *Ctx, recv ssa.Value, child *ssa.Call) string {
+	// the literal the loop ranges over
+	var lit *ssa.Alloc
+	for v := range backSlice(child.Call.Args[1]).vals {
+		if ia, ok := v.(*ssa.IndexAddr); ok {
+			base := ia.X
+			if sl, isSl := base.(*ssa.Slice); isSl {
+				base = sl.X
+			}
+			if a, isA := base.(*ssa.Alloc); isA {
+				if _, isArr := a.Type().Underlying().(*types.Pointer).Elem().Underlying().(*types.Array); isArr {
+					lit = a
+				}
+			}
+		}
+	}
+	if lit == nil {
+		return ""
+	}
+	// the position the key is taken from
+	pos := ""
+	for v := range backSlice(recv).vals {
+		ia, ok := v.(*ssa.IndexAddr)
+		if !ok {
+			continue
+		}
+		if base := ia.X; base == ssa.Value(lit) {
+			continue
+		} else if sl, isSl := base.(*ssa.Slice); isSl && sl.X == ssa.Value(lit) {
+			continue
+		}
+		switch branchOfValue(c, ia.Index) {
+		case "external":
+			pos, _ = branchConst(c, "ExternalBranch")
+		case "internal":
+			pos, _ = branchConst(c, "InternalBranch")
+		default:
+			if k, isK := strip(ia.Index).(*ssa.Const); isK && k.Value != nil {
+				pos = k.Value.ExactString()
+			}
+		}
+	}
+	if pos == "" {
+		return ""
+	}
+	out := ""
+	if refs := lit.Referrers(); refs != nil {
+		for _, r := range *refs {
+			ia, ok := r.(*ssa.IndexAddr)
+			if !ok {
+				continue
+			}
+			k, isK := strip(ia.Index).(*ssa.Const)
+			if !isK || k.Value == nil || k.Value.ExactString() != pos {
+				continue
+			}
+			if irefs := ia.Referrers(); irefs != nil {
+				for _, ir := range *irefs {
+					if st, isSt := ir.(*ssa.Store); isSt && st.Addr == ssa.Value(ia) {
+						out = branchOfValue(c, st.Val)
+					}
+				}
+			}
+		}
+	}
+	return out
 }
 
 // ---- AUTH ---------------------------------------------------------------------------------
